@@ -17,15 +17,20 @@ class FakeMFD:
         return iter([(self.tag, i + 1) for i in range(self.n)])
 
 
-def order_check(perm_i, named_zone, named_channel, two_origins, nf_first_b):
+def order_check(perm_i, named_zone, named_channel, o_cfg, nf_first_b):
+    # o_cfg: 0 one origin (unnamed set); 1 two origins in the unnamed set; 2 first origin in a named set, second in the
+    # unnamed one; 3 first unnamed, second named; 4 both in one named set
+    two_origins = o_cfg >= 1
+    sn1 = 'OS' if o_cfg in (2, 4) else None
+    sn2 = 'OS' if o_cfg in (3, 4) else None
     df, (lf,) = new_file(1)
     perm = PERM4[perm_i]
     made = {}
 
     def op_origin():
-        made['o1'] = add_origin(lf, 'O1')
+        made['o1'] = add_origin(lf, 'O1', set_name=sn1)
         if two_origins:
-            made['o2'] = add_origin(lf, 'O2')
+            made['o2'] = add_origin(lf, 'O2', set_name=sn2)
 
     def op_chan_frame():
         ch = lf.add_channel('CH', set_name='CS' if named_channel else None)
@@ -51,14 +56,18 @@ def order_check(perm_i, named_zone, named_channel, two_origins, nf_first_b):
     # 1. header first, exactly one object
     if kinds[0] != 'FILE-HEADER' or recs[0].n_items != 1 or recs[0] is not lf.file_header_item.parent:
         return 1
-    # 2. ORIGIN set next; defining origin first in it
+    # 2. ORIGIN set(s) next; the first one holds the defining origin (the first origin added) as its first object
     if kinds[1] != 'ORIGIN':
         return 2
     items = recs[1].get_all_eflr_items()
     if items[0] is not made['o1'] or lf.defining_origin is not made['o1']:
         return 3
-    if len(items) != (2 if two_origins else 1):
+    split = two_origins and sn1 != sn2
+    if len(items) != (1 if (split or not two_origins) else 2):
         return 3
+    if split:
+        if kinds[2] != 'ORIGIN' or recs[2].get_all_eflr_items() != [made['o2']]:
+            return 3
     # 3. every other set exactly once, none empty, all before the first IFLR
     seen = []
     first_iflr = len(recs)
@@ -80,10 +89,12 @@ def order_check(perm_i, named_zone, named_channel, two_origins, nf_first_b):
         else:
             if isinstance(getattr(r, 'set_type', None), str):
                 return 7                  # an EFLR set after the first IFLR
-    want_sets = {('FILE-HEADER', None), ('ORIGIN', None), ('CHANNEL', 'CS' if named_channel else None),
+    want_sets = {('FILE-HEADER', None), ('ORIGIN', sn1), ('CHANNEL', 'CS' if named_channel else None),
                  ('FRAME', None), ('ZONE', None), ('NO-FORMAT', None)}
     if named_zone:
         want_sets.add(('ZONE', 'ZS'))
+    if two_origins:
+        want_sets.add(('ORIGIN', sn2))
     if set(seen) != want_sets:
         return 8
     # 4. no-format records in call order, then the frame data
@@ -104,23 +115,28 @@ def order_check(perm_i, named_zone, named_channel, two_origins, nf_first_b):
                 continue
             if it.origin_reference != made['o1'].origin_reference:
                 return 13
+    for i in range(len(recs)):
+        if kinds[i] == 'ORIGIN' and i > (2 if split else 1):
+            return 14                      # ORIGIN sets come immediately after the header
     return 0
 
 
-def ob_order(perm_i: int, named_zone: bool, named_channel: bool, two_origins: bool, nf_first_b: bool) -> int:
+def ob_order(perm_i: int, named_zone: bool, named_channel: bool, o_cfg: int, nf_first_b: bool) -> int:
     """
     pre: 0 <= perm_i < 24 and perm_i % SHARD_N == SHARD_I
+    pre: 0 <= o_cfg <= 4
     post: _ == 0
     """
-    return order_check(perm_i, named_zone, named_channel, two_origins, nf_first_b)
+    return order_check(perm_i, named_zone, named_channel, o_cfg, nf_first_b)
 
 
-def reach_order(perm_i: int, named_zone: bool, named_channel: bool, two_origins: bool, nf_first_b: bool) -> int:
+def reach_order(perm_i: int, named_zone: bool, named_channel: bool, o_cfg: int, nf_first_b: bool) -> int:
     """
     pre: 0 <= perm_i < 24 and perm_i % SHARD_N == SHARD_I
+    pre: 0 <= o_cfg <= 4
     post: _ != 0
     """
-    return order_check(perm_i, named_zone, named_channel, two_origins, nf_first_b)
+    return order_check(perm_i, named_zone, named_channel, o_cfg, nf_first_b)
 
 
 # ------------------------------------------------------------------------------------------------ file header
